@@ -290,23 +290,40 @@ def Vfrac(s):
     return float(g.sum() / t) if t > 0 else float('nan')
 
 
-def build_stream(th, flows_l, flows_g, T, P):
+def build_stream(th, flows_l, flows_g, T, P, extra=None):
     kw = {}
     if flows_l: kw['l'] = flows_l
     if flows_g: kw['g'] = flows_g
+    for ph, fl_ in (extra or {}).items():
+        if fl_: kw[ph] = fl_
     return tmo.MultiStream(None, T=T, P=P, thermo=th, **kw)
+
+
+class Snap(tuple):
+    """(liquid, vapour, T, P) of a stream plus, in `.extra`, the flows it holds in any OTHER phase ('s', 'L', …): material
+    there takes no part in the vapour–liquid equilibrium but belongs to the stream's H, S and mass"""
+    extra = {}
+
+
+def extra_phases(s):
+    if not isinstance(s, tmo.MultiStream): return {}
+    return {ph: arr(s.imol[ph]).copy() for ph in s.phases if ph not in ('g', 'l') and arr(s.imol[ph]).any()}
 
 
 def snapshot(s):
     l_, g_ = phase_arrays(s)
-    return (l_.copy(), g_.copy(), float(s.T), float(s.P))
+    sn = Snap((l_.copy(), g_.copy(), float(s.T), float(s.P)))
+    sn.extra = extra_phases(s)
+    return sn
 
 
-def restore(th, snap, k=1.0):
+def restore(th, snap, k=1.0, extra=None):
     l, g, T, P = snap
-    s = tmo.MultiStream(None, T=T, P=P, phases=('g', 'l'), thermo=th)
+    extra = extra if extra is not None else getattr(snap, 'extra', {})
+    s = tmo.MultiStream(None, T=T, P=P, phases=tuple(['g', 'l'] + sorted(extra)), thermo=th)
     s.imol['l'] = k * l
     s.imol['g'] = k * g
+    for ph, a_ in extra.items(): s.imol[ph] = k * a_
     return s
 
 
@@ -365,20 +382,22 @@ class Run:
     def feed(self, t):
         ti = int(t[1]); T0, P0 = float(t[2]), float(t[3])
         self.th, self.ids, self.kind, self.name = THERMOS[ti]
-        fl_, fg_ = [], []
+        fl_, fg_, fx_ = [], [], {}
         for tok in t[4:]:
             ph, rest = tok.split(':', 1)
             for it in rest.split(','):
                 if not it: continue
                 cid, val = it.split('=')
-                (fl_ if ph == 'l' else fg_).append((cid, float(val)))
+                if ph in ('l', 'g'): (fl_ if ph == 'l' else fg_).append((cid, float(val)))
+                else: fx_.setdefault(ph, []).append((cid, float(val)))
         if t[0] == 'sfeed':
             # the other public entry point: a single-phase `Stream` whose `.vle` turns it into a MultiStream in place
             self.s = tmo.Stream(None, T=T0, P=P0, phase='l', thermo=self.th)
             for c, v in fl_ + fg_: self.s.imol[c] += v
             self.tags.append('entry:Stream.vle')
         else:
-            self.s = build_stream(self.th, fl_, fg_, T0, P0)
+            self.s = build_stream(self.th, fl_, fg_, T0, P0, fx_)
+            if fx_: self.tags.append('extra-phase:' + ''.join(sorted(fx_)))
         self.key.append((ti, tuple(sorted((c, round(v, 3)) for c, v in fl_ + fg_))))
 
     # ---- resolve a specification token -----------------------------------
@@ -612,7 +631,7 @@ class Run:
             i0 = idx[0]; m0 = L1_[i0] + G1_[i0]
             Lb, Gb = L1_.copy(), G1_.copy(); Lb[i0], Gb[i0] = m0, 0.
             Ld, Gd = L1_.copy(), G1_.copy(); Ld[i0], Gd[i0] = 0., m0
-            cl = restore(th, (Lb, Gb, T1, P1)); cg = restore(th, (Ld, Gd, T1, P1))
+            cl = restore(th, (Lb, Gb, T1, P1), extra=snap.extra); cg = restore(th, (Ld, Gd, T1, P1), extra=snap.extra)
             Xb = float(cl.H if kb == 'H' else cl.S); Xd = float(cg.H if kb == 'H' else cg.S)
             # (as fractions of the chemical's flow: the comparison is then independent of the scale of the feed)
             self.emit(f'lever {fl(b)} {fl(Xb)} {fl(Xd)} {fl(1.0)}', f'lv={fl(l1[0] / mol[0])} gv={fl(g1[0] / mol[0])}')
@@ -724,7 +743,8 @@ class Run:
             if r > tol:
                 sfx = suffix(); self.last_sfx.add(sfx)
                 self.fail(family_sig(f'H-not-reproduced:{pair}:{ncase}', ka, sfx), f'specified H={b!r}, stream.H={float(s.H)!r} ({r:.3g} kJ/kg, allowed {tol:.3g}); T={T1}, P={P1}')
-        s_noisy = any(th.chemicals.tuple[i].ID in S_NOISY for i in idx)
+        s_noisy = any(th.chemicals.tuple[i].ID in S_NOISY for i in idx) or any(
+            c.ID in S_NOISY and a_[i] > 0 for a_ in snap.extra.values() for i, c in enumerate(th.chemicals.tuple))
         if kb == 'S' and s_noisy: self.tags.append('S-noisy-skip')
         if kb == 'S' and not s_noisy and hs_ok:
             r = abs(float(s.S) - b) / Fm
@@ -1283,6 +1303,14 @@ def gen_case(rng, ti=None):
     else:
         feed, k, inert = gen_feed(rng, ti)
     if rng.random() < 0.15: feed = 's' + feed
+    elif rng.random() < 0.14:
+        # material in a phase other than g / l
+        Ftot = sum(float(x.split('=')[1]) for tok in feed.split(' ')[4:] for x in tok.split(':', 1)[1].split(','))
+        if rng.random() < 0.5: feed += f' s:Glucose={round(Ftot * rng.uniform(0.02, 0.06), 6)}'
+        else:
+            ids_ = [i[0] if isinstance(i, tuple) else i for i in FAMILIES[int(feed.split(' ')[1])][1]]
+            ids_ = [i for i in ids_ if i not in S_NOISY] or ids_        # (their quantised liquid entropy would make every S target ill-posed)
+            feed += f' L:{rng.choice(ids_)}={round(Ftot * rng.uniform(0.03, 0.12), 6)}'
     ops = [feed]
     P = round(10 ** rng.uniform(math.log10(2e4), math.log10(6e5 if rng.random() < 0.8 else 1e6)), 1)
     V = round(rng.uniform(0.03, 0.97), 4)
@@ -1399,7 +1427,11 @@ def spec_grid():
              'inert': 'feed 3 300.0 101325.0 l:Methanol=5.0,1-Propanol=5.0,Glucose=0.2 g:O2=0.3',
              'one+solute0': 'feed 11 300.0 101325.0 l:Ethanol=9.5,Glucose=0.5',
              'water+solute0': 'feed 12 300.0 101325.0 l:Water=9.6,Glucose=0.4',
-             'many+solute0': 'feed 12 300.0 101325.0 l:Water=5.0,Ethanol=4.7,Glucose=0.3'}
+             'many+solute0': 'feed 12 300.0 101325.0 l:Water=5.0,Ethanol=4.7,Glucose=0.3',
+             # streams with MORE phases than g / l holding material there (it belongs to the stream's H, S and mass)
+             'solid': 'feed 12 300.0 101325.0 l:Water=6.0,Ethanol=4.0 s:Glucose=0.4',
+             'one+solid': 'feed 11 300.0 101325.0 l:Ethanol=10.0 s:Glucose=0.5',
+             'second-liquid': 'feed 1 300.0 101325.0 l:Hexane=6.0,Toluene=4.0 L:Octane=1.0'}
     specs = ['vle TP 345.0 60000.0', 'vle TV 345.0 0.4', 'vle TV 345.0 0.0', 'vle TV 345.0 1.0', 'vle PV 60000.0 0.0', 'vle PV 60000.0 1.0', 'vle TH 345.0 v0.4', 'vle TS 345.0 v0.4',
              'vle PV 60000.0 0.4', 'vle PH 60000.0 v0.4', 'vle PS 60000.0 v0.4']
     out = []
